@@ -36,6 +36,25 @@ def getctype(self, cdecl, replace_with=''):
 '''
 
 
+TEMPLATE_GCN = '''
+def get_c_name(self, replace_with='', context='a C file', quals=0):
+    result = self.c_name_with_marker
+    assert result.count('G1') == 1
+    replace_with = replace_with.strip()
+    if replace_with:
+        if replace_with.startswith('G2') and 'G3' in result:
+            replace_with = 'G4' % replace_with
+        elif replace_with[0] not in 'G5':
+            replace_with = 'G6' + replace_with
+    replace_with = qualify(quals, replace_with)
+    result = result.replace('G7', replace_with)
+    if 'G8' in result:
+        raise VerificationError(
+            "G9"
+            % (self._get_c_name(), context))
+    return result
+'''
+
 def _shape(fn):
     """the function's AST with string constants replaced by a placeholder, docstring removed"""
     body = list(fn.body)
@@ -74,10 +93,48 @@ def regen(ctx):
         lp, rp = c["C4"].split("%s")
         lits = [("py_star", c["C1"]), ("py_probe", c["C2"]), ("py_marker", c["C3"]), ("py_lparen", lp),
                 ("py_rparen", rp), ("py_nospace", c["C5"]), ("py_space", c["C6"])]
+        # ---- model.get_c_name / model.qualify (the Python-side duplicate of the same logic)
+        mtree = py2coq.parse_source(os.path.join(vlib.REPO, "src", "cffi", "model.py"))
+        gfn = py2coq.find_function(mtree, "get_c_name", cls="BaseTypeByIdentity")
+        gshape, gconsts, gargs = _shape(gfn)
+        rg = ast.parse(TEMPLATE_GCN).body[0]
+        rgshape, rgconsts, rgargs = _shape(rg)
+        if gshape != rgshape or gargs != rgargs or len(gconsts) != len(rgconsts):
+            raise py2coq.Untranslatable("model.get_c_name no longer has the expected shape")
+        gd = [d.value if isinstance(d, ast.Constant) else None for d in gfn.args.defaults]
+        if gd[0] != "" or gd[2] != 0:
+            raise py2coq.Untranslatable("defaults of get_c_name changed")
+        g = dict(zip(rgconsts, gconsts))
+        if g["G1"] != g["G7"] or len(g["G1"]) != 1:
+            raise py2coq.Untranslatable("get_c_name: marker counted (%r) / replaced (%r) must be one same character"
+                                        % (g["G1"], g["G7"]))
+        if g["G4"].count("%s") != 1 or "%" in g["G4"].replace("%s", ""):
+            raise py2coq.Untranslatable("format %r not of the form prefix%%ssuffix" % g["G4"])
+        glp, grp_ = g["G4"].split("%s")
+        qfn = py2coq.find_function(mtree, "qualify")
+        import re
+        qtxt = " ".join(ast.unparse(qfn).split())
+        qm = re.fullmatch(
+            r"def qualify\(quals, replace_with\): "
+            r"if quals & (Q_\w+): replace_with = '([^']*)' \+ replace_with\.lstrip\(\) "
+            r"if quals & (Q_\w+): replace_with = '([^']*)' \+ replace_with\.lstrip\(\) "
+            r"if quals & (Q_\w+): replace_with = '([^']*)' \+ replace_with\.lstrip\(\) "
+            r"return replace_with", qtxt)
+        if not qm:
+            raise py2coq.Untranslatable("model.qualify no longer has the expected shape: " + qtxt[:200])
+        from props import c06_extract
+        qvals = dict(("Q_" + k, v) for k, v in c06_extract.py_int_constants(mtree, "Q_"))
+        qrows = [(qm.group(i), qvals[qm.group(i)], qm.group(i + 1)) for i in (1, 3, 5)]
+        lits += [("gc_marker", g["G1"]), ("gc_star", g["G2"]), ("gc_probe", g["G3"]), ("gc_lparen", glp),
+                 ("gc_rparen", grp_), ("gc_nospace", g["G5"]), ("gc_space", g["G6"])]
         head = open(gen).read().split("From Coq Require")[0]
         text = head + "From Coq Require Import List NArith.\nImport ListNotations.\n" + "".join(
             "Definition %s : list N := %s.\n" % (n, "[" + ";".join(str(ord(ch)) for ch in v) + "]%N" if v else
-                                                "Definition %s : list N := []." % n) for n, v in lits)
+                                                "(@nil N)") for n, v in lits)
+        text += ("(* model.qualify (src/cffi/model.py): (flag value, text) in the order of its if-statements: %s *)\n"
+                 "Definition py_qualify_table : list (N * list N) := [%s].\n" % (
+                     ", ".join(n for n, _v, _t in qrows),
+                     "; ".join("(%d%%N, [%s]%%N)" % (v, ";".join(str(ord(ch)) for ch in t)) for _n, v, t in qrows)))
         old = open(gen).read()
         if text != old:
             with open(gen, "w") as f:
@@ -313,6 +370,7 @@ def evaluate(ctx, cases):
                     if decl:
                         gcc_cases.append((gi, i, decl, rs["sizeof"], rs["cname"]))
     run_gcc(ctx, s, groups, cases, gcc_cases)
+    eval_get_c_name(ctx, s, groups, cases)
     bad, detail, err = coq_run(coq_lits)
     if err:
         ctx.obligation_broken("C08 model evaluation", err)
@@ -323,6 +381,61 @@ def evaluate(ctx, cases):
             "C08.Model.cname/getctype vs ffi.getctype")
     for c in cases[:3]:
         ctx.sample(dict(s=c["s"], xs=[x["text"] for x in c["xs"]]))
+
+
+def eval_get_c_name(ctx, s, groups, cases):
+    """model.get_c_name (the Python type objects' copy of the getctype logic) vs FFI.getctype, and vs its model"""
+    import re
+    payload = dict(groups=[dict(cdef=G.ctx_cdef(g["ctx"]),
+                                items=[dict(s=cases[i]["s"], x=[x["text"] for x in cases[i]["xs"]]) for i in g["idx"]])
+                           for g in groups])
+    out, p = s.run_worker("c08_worker.py", payload, timeout=1500)
+    if out is None:
+        ctx.violation(cases[0], "c08 worker failed: " + (p.stderr[-1500:] or p.stdout[-500:]))
+        return
+    coq = []
+    owner = []
+    nseen = 0
+    norm = lambda t: t.replace("(void)", "()")
+    for g, r in zip(groups, out["groups"]):
+        if "cdef_error" in r:
+            continue
+        for i, it in zip(g["idx"], r["items"]):
+            if "err" in it:
+                continue
+            c = cases[i]
+            plain = not re.search(r"\b(const|volatile|__restrict|restrict)\b|\$|__stdcall|__cdecl", it["marked"])
+            for x, d in zip(c["xs"], it["x"]):
+                ctx.count()
+                if "get_c_name_err" in d or "getctype_err" in d:
+                    if "$" in it["marked"] and d.get("get_c_name_err") == "VerificationError":
+                        continue          # anonymous type: get_c_name refuses to print it, by design
+                    ctx.violation(c, "get_c_name(%r) / getctype raised %s / %s on %r" % (
+                        x["text"], d.get("get_c_name_err"), d.get("getctype_err"), it["marked"]))
+                    continue
+                ctx.hist("get_c_name", "compared")
+                # same type denoted (both texts re-parsed by the in-line FFI)
+                if d["same"] not in (True, "both-rejected"):
+                    ctx.violation(c, "type object %r: get_c_name(%r) = %r and getctype = %r do not denote the same ctype (%s)"
+                                  % (it["marked"], x["text"], d["get_c_name"], d["getctype"], d["same"]))
+                # same text, when the name carries no qualifier/ABI words (the backend's names drop them) and up to
+                # the spelling of an empty parameter list
+                if plain and norm(d["get_c_name"]) != norm(d["getctype"]):
+                    ctx.violation(c, "type object %r: get_c_name(%r) = %r, getctype = %r" % (
+                        it["marked"], x["text"], d["get_c_name"], d["getctype"]))
+                nseen += 1
+                if ctx.thorough or nseen % 4 == 0:       # quick: the Coq model is evaluated on a quarter of the pairs
+                    coq.append(("(%s, %s)" % (cstr(it["marked"]), cstr(x["text"])), cstr(d["get_c_name"])))
+                    owner.append((i, it["marked"], x["text"]))
+    if coq:
+        bad, outs, err = vlib.coq_mismatches(["C07.Model", "C08.Gen", "C08.Model"],
+                                             "fun mx => get_c_name_py (fst mx) (snd mx) 0%N", "str_eqb", coq, shard=600)
+        if err:
+            ctx.obligation_broken("C08 model evaluation (get_c_name)", err)
+        for k in bad:
+            i, marked, x = owner[k]
+            ctx.mismatch(cases[i], "get_c_name_py %r %r: model %s, model.py %s" % (marked, x, outs.get(k), coq[k][1]),
+                         "C08.Model.get_c_name_py vs model.BaseTypeByIdentity.get_c_name")
 
 
 def _with_side(d, side):
